@@ -20,7 +20,6 @@ import (
 	"verif/HARNESS/dyn"
 	"verif/core/aval"
 	"verif/core/hx"
-	"verif/core/kf"
 	"verif/core/refcodec"
 	"verif/core/schema"
 	"verif/core/stats"
@@ -259,9 +258,6 @@ func TestC04ShortStrings(t *testing.T) {
 	rec.Exhaustive(fmt.Sprintf("all strings of <= %d tokens over %v x {ror2, query} x %d shapes", maxLen, ror2Tokens, len(shapes)), n)
 	i := 0
 	for _, f := range fails {
-		if kf.Open("KF-C04-none") {
-			continue
-		}
 		msg := fmt.Sprintf("[%d failing inputs with this stack; shortest shown] %s", f.n, f.msg)
 		rec.Violation(fmt.Sprintf("short-string-%d", i), msg, f.c)
 		t.Error(msg)
